@@ -2,5 +2,6 @@ SPECIFICATION Spec
 CONSTANT Dev = "pow_exponent_truncated"
 INVARIANT FusionSound
 INVARIANT LpNormSound
+INVARIANT MeanSound
 INVARIANT DigitizeLaws
 CHECK_DEADLOCK FALSE
